@@ -146,4 +146,42 @@ def specAt (script : List (El α)) (k : Nat) : Res α :=
   | some a => .ok a
   | none => .err (terminal script) none
 
+/-- **the property as a checker over one recorded history** (`acts` with the outputs `outs`): every clone's `k`-th
+successful `Next` is the `k`-th item of the underlying sequence; an error other than `cancelled` comes only after
+all items and is the script's own terminal error; `Head` announces the same without advancing; a stopped clone
+answers `Done`; a cancelled call answers `cancelled`.  `hs` = per clone (items received so far, stopped).
+The same function judges the real implementation's histories in the driver and is proved to accept every history
+of the model (`Props/C23`). -/
+def traceOK [DecidableEq α] (script : List (El α)) : List Act → List (Out α) → List (Nat × Bool) → Bool
+  | [], _, _ => true
+  | _ :: _, [], _ => false
+  | a :: as, o :: os, hs =>
+    match a, o with
+    | .clone, .cloned true => traceOK script as os (hs ++ [(0, false)])
+    | .clone, .cloned false => traceOK script as os hs
+    | .expire, .unit => traceOK script as os hs
+    | .stop i, .unit =>
+      match hs[i]? with
+      | some (h, _) => traceOK script as os (hs.set i (h, true))
+      | none => false
+    | .stop i, .noClone => hs[i]?.isNone && traceOK script as os hs
+    | .next i _, .noClone => hs[i]?.isNone && traceOK script as os hs
+    | .head i _, .noClone => hs[i]?.isNone && traceOK script as os hs
+    | .next i c, .res r =>
+      match hs[i]? with
+      | none => false
+      | some (h, st) =>
+        if c then decide (r = Res.cancelled) && traceOK script as os hs
+        else if st then decide (r = Res.done) && traceOK script as os hs
+        else decide (r = specAt script h) &&
+          traceOK script as os (match specAt script h with | .ok _ => hs.set i (h + 1, st) | _ => hs)
+    | .head i c, .res r =>
+      match hs[i]? with
+      | none => false
+      | some (h, st) =>
+        if c then decide (r = Res.cancelled) && traceOK script as os hs
+        else if st then decide (r = Res.done) && traceOK script as os hs
+        else decide (r = specAt script h) && traceOK script as os hs
+    | _, _ => false
+
 end OpenFGAVerif.Model.SharedIter
